@@ -1,7 +1,7 @@
 (* Property C10 — UDP datagram fidelity and session isolation.
    Model: Udp.v (session table of the reverse UDP listener; dispatch of frames by session id) and the codecs of
    C03 (SOCKS5 UDP header, RPFM frame) for payload fidelity. *)
-From RP Require Import Base Stream StreamProofs Target Socks Frames Frag FragProofs C03Proofs Udp UdpProofs QuicDgram QuicDgramProofs.
+From RP Require Import Base Stream StreamProofs Target Socks Frames Frag FragProofs C03Proofs Udp UdpProofs QuicDgram QuicDgramProofs RevSock RevSockProofs.
 From RP.Gen Require Gen_udp.
 
 (* every datagram, the first of a session included, is handed on exactly once and in order *)
@@ -47,7 +47,8 @@ Theorem C10_source_shape :
   Gen_udp.reverse_first_datagram_forwarded = true /\ Gen_udp.reverse_known_session_forwarded = true /\
   Gen_udp.quic_frames_dispatched_by_session_id = true /\
   Gen_udp.quic_fragment_ids_shared_by_all_writers = true /\ Gen_udp.quic_one_reassembly_table_per_connection = true /\
-  Gen_udp.quic_demux_never_waits_for_a_session = true /\ (1 <= Gen_udp.quic_session_queue_capacity)%nat.
+  Gen_udp.quic_demux_never_waits_for_a_session = true /\ (1 <= Gen_udp.quic_session_queue_capacity)%nat /\
+  Gen_udp.session_reader_ignores_other_sources = true.
 Proof. repeat split; try reflexivity. vm_compute. repeat constructor. Qed.
 Print Assumptions C10_source_shape.
 
@@ -135,3 +136,35 @@ Example C10_inline_example :
   let f2 := mk_frame None 7 [] in
   exists bs, encode_all [f1; f2] = Ok bs /\ sfr_all 3 [] [firstn 5 bs; skipn 5 bs] = ([f1; f2], Ok tt).
 Proof. eexists. split; [vm_compute; reflexivity|vm_compute; reflexivity]. Qed.
+
+(* ---- the sockets of the reverse UDP listener: a session socket shares the listener's address and is bound before it is
+        connected, so the kernel may queue another new client's datagram on it ---------------------------------------- *)
+
+(* Isolation, for every sequence of arrivals, accepts, connects and reads (any number of clients starting at any moments):
+   a session forwards upstream only datagrams of its own client.  The reader is the one the source has (Gen_udp). *)
+Theorem C10_session_forwards_only_its_client : forall evs,
+  Forall (fun h => snd (fst h) = fst (fst h)) (r_handed (rrun Gen_udp.session_reader_ignores_other_sources evs)).
+Proof. exact session_forwards_only_its_client. Qed.
+Print Assumptions C10_session_forwards_only_its_client.
+
+(* what fix b14e8ad repaired: the reader forwarded whatever its socket held *)
+Theorem C10_unfiltered_reader_refuted :
+  let evs := [Arrive 1 [10]; AcceptBind; Arrive 2 [20]; AcceptConnect 1; ReadStep 1] in
+  In (1, 2, [20]) (r_handed (rrun false evs)) /\ r_handed (rrun true evs) = [(1, 1, [10])].
+Proof. exact unfiltered_reader_crosses_sessions. Qed.
+Print Assumptions C10_unfiltered_reader_refuted.
+
+(* Delivery, outside the class of the known finding C10-simultaneous-start-first-datagrams-lost (some datagram arrived while
+   another client's session socket was bound and not yet connected): no reader ever ignores a datagram - everything that arrived
+   is handed on or still queued. *)
+Theorem C10_nothing_ignored_outside_the_window_class : forall evs,
+  ~ KnownClass_C10_window evs -> r_dropped (rrun true evs) = [].
+Proof. exact nothing_ignored_outside_the_window_class. Qed.
+Print Assumptions C10_nothing_ignored_outside_the_window_class.
+
+(* the known finding, witnessed: inside the class a datagram is lost *)
+Theorem C10_window_class_refuted :
+  let evs := [Arrive 1 [10]; AcceptBind; Arrive 2 [20]; AcceptConnect 1; ReadStep 1; AcceptBind; ReadStep 2] in
+  KnownClass_C10_window evs /\ r_dropped (rrun true evs) = [(2, [20])] /\ ~ In [20] (map snd (r_handed (rrun true evs))).
+Proof. exact window_class_loses_a_datagram. Qed.
+Print Assumptions C10_window_class_refuted.
